@@ -417,6 +417,73 @@ Definition session (k : cfg) (s : str) (number : N) (times : nat) : res (list (l
   do r <- reply k s;
   Ok (map (map truncate_msg) (fst r :: mores_go times (snd r) number)).
 
+(* ---- `more <nick>`: another user looks at the owner's pending chunks ----
+   Message objects matter here: Irc.takeMsg() tags every PRIVMSG/NOTICE it hands to the driver with
+   'emulatedEcho' (when the server does not echo) and asserts that the tag was not there; the firewall
+   around takeMsg swallows the AssertionError and the message is gone.  So an IrcMsg object can be sent
+   once.  Objects are modelled by an identity number. *)
+Record pmsg := PM { pm_id : N; pm_line : str }.
+Record mstate := MS {
+  ms_owner : list pmsg;      (* irc._mores[owner's user@host], also reachable as irc._mores[owner's nick] *)
+  ms_peer : list pmsg;       (* irc._mores[the other user's user@host] *)
+  ms_sent : list N;          (* objects already tagged emulatedEcho *)
+  ms_next : N                (* next fresh identity *)
+}.
+Inductive mop : Type := OpOwner | OpPeerNick | OpPeer.   (* owner: more; peer: more <owner's nick>; peer: more *)
+
+(* queueMsg + takeMsg for each message: an already-sent object is dropped *)
+Fixpoint take_all (sent : list N) (msgs : list pmsg) : list str * list N :=
+  match msgs with
+  | [] => ([], sent)
+  | m :: r =>
+      if mem (pm_id m) sent then take_all sent r
+      else let (out, s') := take_all (pm_id m :: sent) r in (pm_line m :: out, s')
+  end.
+
+(* msgs = L[-number:]; msgs.reverse(); L[-number:] = [] *)
+Definition more_p (L : list pmsg) (number : N) : list pmsg * list pmsg :=
+  let keep := (length L - N.to_nat number)%nat in (rev (skipn keep L), firstn keep L).
+
+(* [ircmsgs.IrcMsg(msg=m) for m in L]: new objects with the same text *)
+Fixpoint copy_msgs (next : N) (L : list pmsg) : list pmsg * N :=
+  match L with
+  | [] => ([], next)
+  | m :: r => let (r', n') := copy_msgs (next + 1) r in (PM next (pm_line m) :: r', n')
+  end.
+
+Definition mstep (number : N) (st : mstate) (op : mop) : list str * mstate :=
+  match op with
+  | OpOwner =>
+      let (msgs, L') := more_p (ms_owner st) number in
+      let (out, s') := take_all (ms_sent st) msgs in
+      (out, MS L' (ms_peer st) s' (ms_next st))
+  | OpPeerNick =>
+      let (cp, n') := copy_msgs (ms_next st) (ms_owner st) in
+      let (msgs, P') := more_p cp number in
+      let (out, s') := take_all (ms_sent st) msgs in
+      (out, MS (ms_owner st) P' s' n')
+  | OpPeer =>
+      let (msgs, P') := more_p (ms_peer st) number in
+      let (out, s') := take_all (ms_sent st) msgs in
+      (out, MS (ms_owner st) P' s' (ms_next st))
+  end.
+
+Fixpoint mrun (number : N) (st : mstate) (ops : list mop) : list (list str) * mstate :=
+  match ops with
+  | [] => ([], st)
+  | op :: r => let (out, st1) := mstep number st op in
+               let (outs, st2) := mrun number st1 r in (out :: outs, st2)
+  end.
+
+Fixpoint number_from (i : N) (l : list str) : list pmsg :=
+  match l with [] => [] | x :: r => PM i x :: number_from (i + 1) r end.
+
+(* a reply in a channel, then a sequence of more / more <nick> / more by the owner and one other user *)
+Definition session2 (k : cfg) (s : str) (number : N) (ops : list mop) : res (list (list str)) :=
+  do r <- reply k s;
+  let L := number_from 0 (snd r) in
+  Ok (map (map truncate_msg) (fst r :: fst (mrun number (MS L [] [] (N.of_nat (length L))) ops))).
+
 (* the line as the server relays it: ":" prefix " " str(m) *)
 Definition relayed (k : cfg) (line : str) : str := 58 :: c_prefix k ++ 32 :: line.
 Definition line_fits (k : cfg) (line : str) : bool := blen (relayed k line) <=? gen.T12.LINE_MAX.
@@ -438,7 +505,8 @@ Definition gCfg (v : value) : cfg :=
    4 s                -> parse: (ctx, max_context_size)
    5 (cfg s number times) -> session transcript
    6 s                -> visible s
-   7 (s length)       -> wrap with the model's own splitter *)
+   7 (s length)       -> wrap with the model's own splitter
+   8 (cfg s number ops) -> session2 transcript (ops: 0 owner's more, 1 peer's more <nick>, 2 peer's more) *)
 Definition run (v : value) : value :=
   let p := nth_v 1 v in
   match gN (nth_v 0 v) with
@@ -451,5 +519,8 @@ Definition run (v : value) : value :=
             (session (gCfg (nth_v 0 p)) (gS (nth_v 1 p)) (gN (nth_v 2 p)) (N.to_nat (gN (nth_v 3 p))))
   | 6 => vS (visible (gS p))
   | 7 => vR vLS (wrap (gS (nth_v 0 p)) (gZ (nth_v 1 p)))
+  | 8 => vR (fun t => L (map vLS t))
+            (session2 (gCfg (nth_v 0 p)) (gS (nth_v 1 p)) (gN (nth_v 2 p))
+                      (map (fun v => match gN v with 0 => OpOwner | 1 => OpPeerNick | _ => OpPeer end) (gL (nth_v 3 p))))
   | _ => L []
   end.
